@@ -11,6 +11,10 @@ SIO_TRUSTED = [
     "comparisons are made on canonical forms (batches and recorder logs as multisets unless the history is a single-recipient chain)",
     "the ids of the service machines (sio.TimersMachine, sio.CaptainMachine) are read from the package at run time and compared "
     "with the model's constants in every case",
+    "what the service machines accept in node \"start\" is hand-written in the model (tm_shape; the captain takes every message) and "
+    "proved equal to the branch patterns of Crew.NewTimersSpec / Crew.NewCaptainSpec as Gen/SioSpecs.v holds them, regenerated from "
+    "the tree under test by harness/cmd/genconsts (go/ast, encoding/json) on every check, through the matcher model Model/Match.v "
+    "(C14_sio_timers_shape_is_source_patterns, C14_sio_captain_start_accepts_all)",
     "Go harness (generator, watchdog, recover, snapshots through encoding/json), check driver, Corr/SioCorr.v",
     "not modelled: timers firing (the timers machine only as a routing target), specification sources that fail to compile, "
     "operations on the service machines, messages of Go types that JSON cannot carry ([]string targets, function-valued messages)",
